@@ -131,6 +131,35 @@ Theorem C17_repeated_reads :
     run c (repeat o n) = repeat (pure_res o) n.
 Proof. exact repeated_reads. Qed.
 
+(** A link through an adapter that changes the units (asks upstream without units, delivers the
+    numbers labelled [d]): the consumer's units [b] are judged against the DELIVERED units.  With any
+    sound memo: different dimension -> refused with FinamMetaDataError, whatever the output declares.
+    Equal dimension -> delivered with the consumer's label, the number is the dimensional-analysis
+    conversion from [d] to [b] of the number the output holds (which is the published number
+    converted from [k] to the output's units [a]). *)
+Theorem C17_adapter_link :
+  (forall Un c k a d b x, faithful Un -> sound Un c ->
+     (forall k', k = Some k' -> In k' Un) -> In a Un -> In d Un -> In b Un ->
+     compatible (uu d) (uu b) = false ->
+     fst (step c (ALink k a d b x)) = RErr ErrMeta)
+  /\ (forall Un k a d b x,
+     faithful Un -> (forall u, In u Un -> wf (uu u)) -> offsets_ok Un ->
+     In k Un -> In a Un -> In d Un -> In b Un ->
+     compatible (uu k) (uu a) = true -> compatible (uu d) (uu b) = true ->
+     exists us cs xs cv y,
+       p_alink (Some k) a d b x = RLink us cs xs (cid b) cv y
+       /\ y == convert (uu d) (uu b) xs
+       /\ (exists se, In se Un /\ cid se = us
+             /\ convert (uu se) (uu a) xs == convert (uu k) (uu a) x)).
+Proof. exact (conj alink_refuse alink_exact). Qed.
+
+(* g published on a kg output, adapter delivers mm, consumer m / consumer kg *)
+Example C17_adapter_link_nonvacuous :
+  fst (step [] (ALink (Some (U 14)) (U 13) (U 3) (U 0) 1500)) = RLink 10 true (1500#1000) 0 true (1500#1000000)
+  /\ fst (step [] (ALink (Some (U 14)) (U 13) (U 3) (U 13) 1500)) = RErr ErrMeta
+  /\ compatible (uu (U 3)) (uu (U 13)) = false /\ compatible (uu (U 13)) (uu (U 13)) = true.
+Proof. repeat split; vm_compute; reflexivity. Qed.
+
 (** Non-vacuity. *)
 (* a session on the catalogue with repeated / reversed pairs, a clear, a relabel, offsets, a
    refused link; memoised answers = pure answers, and they are not all trivial *)
@@ -188,3 +217,4 @@ Print Assumptions C17_link_exact.
 Print Assumptions C17_catalogue_ok.
 Print Assumptions C17_convert_commutes_mask.
 Print Assumptions C17_repeated_reads.
+Print Assumptions C17_adapter_link.
